@@ -343,6 +343,7 @@ type rig struct {
 	rtpRec *mediah.Rec
 	flvRec *mediah.Rec
 	sent   []*rtp.Packet
+	paced  int // len(sent) at the last pacing point
 }
 
 var rigCounter uint64
@@ -373,6 +374,16 @@ func (r *rig) write(p *rtp.Packet) (esc *escaped) {
 	}()
 	r.sent = append(r.sent, p)
 	r.s.WriteRtpPacket(p)
+	// Pace the publisher to the recording RTP consumer: ipchub lets a consumer fall
+	// 1000 packets behind and then drops, from a key picture on, until it has caught
+	// up (property C04's documented backlog rule) — a recorder that a long burst has
+	// left behind would legitimately lose packets, which is not what C07 judges.
+	// State-based: every 400 packets wait until the recorder is within 100 of what
+	// was published (bounded; if the relay has really stopped the oracle says so).
+	if len(r.sent)-r.paced >= 400 {
+		r.paced = len(r.sent)
+		mediah.WaitFor(6*bound, func() bool { return r.rtpRec.Len() >= len(r.sent)-100 })
+	}
 	return nil
 }
 
